@@ -95,6 +95,12 @@ func (vc *FuncVC) call(b *ssa.BasicBlock, idx int, ins ssa.Instruction, c *ssa.C
 				con = sc
 				key = tkey
 				unboxed[i] = mi.X
+				// further interface arguments holding the same static type are unboxed too (reflect.DeepEqual(x, y))
+				for j := i + 1; j < len(c.Args); j++ {
+					if mj, ok := c.Args[j].(*ssa.MakeInterface); ok && types.Identical(mj.X.Type(), mi.X.Type()) {
+						unboxed[j] = mj.X
+					}
+				}
 				break
 			}
 		}
